@@ -324,6 +324,7 @@ fn run_one(ctx: &RunCtx, max_len: usize) -> RunOut {
         }
     }
     let log = h.log();
+    crate::cross::stash(&log, false);
     let mut out = RunOut::new(format!("len{}", steps.len()), saw_attempt && saw_restart, trace::digest(&log));
     if ctx.want_trace {
         out.trace = Some(json!({"steps": format!("{steps:?}"), "log": trace::trace_json(&log)}));
@@ -396,6 +397,14 @@ fn rebuild_first_seen(setup: &Setup, snap: &std::collections::BTreeMap<String, S
             .collect(),
         g.clock.wall,
     )
+}
+
+/// This module's history exploration (length 3, at most 3 non-default parameters) for sibling oracles.
+pub fn run_for_cross(ctx: &RunCtx) -> RunOut {
+    run_one(ctx, 3)
+}
+pub fn cross_cfg(name: &str) -> Cfg {
+    Cfg::new(name).dev(3).free(&["step"])
 }
 
 fn parts(tier: Tier) -> Vec<PartDef> {
